@@ -18,6 +18,7 @@ func round2Hooks(c *Ctx, id string) {
 	round2Hooks3(c, id)
 	round2Hooks4(c, id)
 	round2Hooks5(c, id)
+	round2Hooks6(c, id)
 	switch id {
 	case "C01":
 		sharedDeleteExact(c, "C01.g shared-delete-exact")
